@@ -221,7 +221,7 @@ func (con *Connection) DecryptedRead(b []byte) (int, error) {
 func (con *Connection) Write(b []byte) (n int, err error) {
 	// The session is looked up once; it is deleted when the connection is closed
 	// while data (e.g. a notification) is written.
-	sess := con.context.GetSessionForConnection(con.connection)
+	sess := con.currentSession()
 	if sess == nil {
 		return 0, errors.New("connection is closed")
 	}
@@ -337,9 +337,20 @@ func (con *Connection) SetWriteDeadline(t time.Time) error {
 	return con.connection.SetWriteDeadline(t)
 }
 
+// currentSession returns the session of the connection as long as it is registered in the context.
+// It returns nil when the connection was closed – or replaced by a newer connection with the same
+// addresses, whose session (keys and frame counters) must not be used by this connection.
+func (con *Connection) currentSession() Session {
+	if session := con.context.GetSessionForConnection(con.connection); session != nil && session == con.session {
+		return session
+	}
+
+	return nil
+}
+
 // getEncrypter returns the session's Encrypter, otherwise nil
 func (con *Connection) getEncrypter() crypto.Encrypter {
-	session := con.context.GetSessionForConnection(con.connection)
+	session := con.currentSession()
 	if session != nil {
 		return session.Encrypter()
 	}
@@ -349,7 +360,7 @@ func (con *Connection) getEncrypter() crypto.Encrypter {
 
 // getDecrypter returns the session's Decrypter, otherwise nil
 func (con *Connection) getDecrypter() crypto.Decrypter {
-	session := con.context.GetSessionForConnection(con.connection)
+	session := con.currentSession()
 	if session != nil {
 		return session.Decrypter()
 	}
